@@ -46,6 +46,23 @@ package ctreeprop
 // the visit is released); a tree that lets it through makes the released visit
 // report part of what ONE delete removed (clause (2) of c10_rdatomic_test.go).
 
+//
+// Profile move-vs-conditional-delete: 3-5 leaves below one branch, all retained,
+// of which one or two satisfy the condition; a DeleteConditional / WalkDeleted of
+// the branch parks inside its k-th condition call, and a writer then rewrites
+// leaves in an order that MOVES the truth of the condition: it makes a leaf whose
+// inspection is over ("done": the delete kept it) match and afterwards makes a
+// leaf the delete has not inspected yet ("unseen") stop matching - through a
+// handle or with an Add on the existing leaf (CBOp.Sel on an add: the path is
+// that of the selected leaf). In every sequential order some leaf matches at
+// every instant, so the delete must remove one. On a correct tree the first
+// rewrite waits until the delete returns (the delete keeps every inspected node
+// locked, an Add needs the root); a delete whose decision does not come from one
+// exclusive section - a scan under shared locks first, say - lets both through
+// and then reports that there was nothing to remove. The reverse order (at most
+// one leaf matches at every instant: the delete cannot remove two) and generated
+// rewrites are part of the profile.
+
 import (
 	"encoding/json"
 	"flag"
@@ -72,7 +89,8 @@ type CBOp struct {
 	Kind string   `json:"kind"` // add glv getleaf hupd hval query walk walksorted del delcond walkdel children isbranch tvalue string
 	Path []string `json:"path,omitempty"`
 	Odd  bool     `json:"odd,omitempty"` // add, hupd: parity of the unique value written (conditional deletes remove even values)
-	// hupd, hval: which retained handle: abs | seen | done | unseen (see the file comment); Idx is taken modulo the number of candidates
+	// hupd, hval: which retained handle: abs | seen | done | unseen (see the file comment); Idx is taken modulo the number of candidates.
+	// add with a Sel: an Add on the existing leaf selected that way (Path is ignored unless nothing is retained)
 	Sel string `json:"sel,omitempty"`
 	Idx int    `json:"idx,omitempty"`
 	// ParkAt: the callback invocations (1-based, condition and visitor calls counted together) at which the operation parks
@@ -93,6 +111,8 @@ type CBScenario struct {
 	Init    []CBInit `json:"init,omitempty"`
 	Threads [][]CBOp `json:"cbthreads"`
 	Steps   []GStep  `json:"steps"` // run = thread T starts its next operation; rel = thread T is released from its park
+	// Profile: (labels only) set by the profiles that are their own generator function
+	Profile string `json:"profile,omitempty"`
 }
 
 type cbPark struct {
@@ -146,6 +166,8 @@ type cbRun struct {
 	step    int
 	// updates dispatched during the current park of a delete: did one aim at a leaf the delete had already removed
 	removedUpdateInPark *cbJob
+	// writes dispatched during the current park of a conditional delete: did one make a leaf the delete had inspected and kept match
+	keptMadeMatching *cbJob
 }
 
 func (r *cbRun) now() int64 { return r.clock.Add(1) }
@@ -434,6 +456,16 @@ func (r *cbRun) dispatch(t *cbThread) bool {
 	}
 	switch spec.Kind {
 	case "add":
+		if spec.Sel != "" {
+			// an Add on an existing leaf, addressed like a handle operation
+			if h, how, ok := r.resolve(spec); ok {
+				o.Path = h.path
+				r.st.label("add-on-leaf-selected:" + how)
+				if parkedDel != nil {
+					job.hupdClass = r.classifyHandleTarget(parkedDel, h)
+				}
+			}
+		}
 		o.Val = cbVal(uniq, spec.Odd)
 		r.mu.Lock()
 		r.valPath[o.Val] = key(o.Path)
@@ -499,6 +531,23 @@ func (r *cbRun) dispatch(t *cbThread) bool {
 		r.st.label("access:" + spec.Kind + ":" + where)
 		if job.ctx != "" {
 			r.st.label("access:" + spec.Kind + ":" + where + ":started-while-parked-" + job.ctx)
+		}
+	}
+	if parkedDel != nil && parkedDel.spec.Kind != "del" && (o.Kind == "hupd" || (o.Kind == "add" && spec.Sel != "")) {
+		// the move shapes (profile move-vs-conditional-delete): the truth of the condition handed from leaf to leaf inside the delete
+		switch {
+		case job.hupdClass == "leaf-inspected-and-kept" && !spec.Odd:
+			r.keptMadeMatching = job
+			r.st.label("parked-delete:kept-leaf-made-matching")
+			// On a correct tree this write waits for the delete, so the thread's next operation cannot start inside it; say what it would have been.
+			if t.next < len(prog) && prog[t.next].Sel == "unseen" && prog[t.next].Odd && (prog[t.next].Kind == "hupd" || prog[t.next].Kind == "add") {
+				r.st.label("parked-delete:kept-leaf-made-matching:same-thread-makes-uninspected-leaf-not-matching-next")
+			}
+		case job.hupdClass == "leaf-not-yet-inspected" && spec.Odd:
+			r.st.label("parked-delete:uninspected-leaf-made-not-matching")
+			if r.keptMadeMatching != nil {
+				r.st.label("parked-delete:kept-leaf-made-matching-then-uninspected-leaf-made-not-matching")
+			}
 		}
 	}
 	if parkedVisit != nil && isDelKind(spec.Kind) {
@@ -591,6 +640,7 @@ func (r *cbRun) release(t *cbThread) {
 	}
 	if p.kind == "delete" {
 		r.removedUpdateInPark = nil
+		r.keptMadeMatching = nil
 	}
 	close(p.rel)
 }
@@ -756,6 +806,9 @@ func runCB(sc *CBScenario) (st *gateStats, hist *History, fail *gateFail) {
 	st = &gateStats{labels: map[string]bool{}}
 	hist = &History{Workers: len(sc.Threads)}
 	r := &cbRun{sc: sc, st: st, hist: hist}
+	if sc.Profile != "" {
+		st.label("profile:" + sc.Profile)
+	}
 	func() {
 		defer func() {
 			if p := recover(); p != nil {
@@ -826,7 +879,10 @@ func genCB(t *rapid.T) *CBScenario {
 	pool := [][]string{{"a", "x"}, {"a", "y"}, {"a", "z"}, {"a", "w", "p"}, {"a", "w", "q"}, {"b", "x"}, {"b", "y"}}
 	extra := [][]string{{"a", "v"}, {"a", "w", "r"}, {"c", "x"}, {"a"}, {"a", "w"}, {"a", "x", "k"}, {"b"}}
 	patterns := [][]string{{"a"}, {"a"}, {"a", "*"}, {"a", "*"}, {}, {"*"}, {"*", "*"}, {"a", "w"}, {"b"}, {"*", "x"}, {"a", "x"}, {"a", "*", "*"}}
-	profile := rapid.SampledFrom([]string{"delete-vs-handles", "delete-vs-handles", "query-vs-writers", "mixed", "visit-vs-multidelete"}).Draw(t, "profile")
+	profile := rapid.SampledFrom([]string{"delete-vs-handles", "delete-vs-handles", "query-vs-writers", "mixed", "visit-vs-multidelete", "move-vs-conditional-delete"}).Draw(t, "profile")
+	if profile == "move-vs-conditional-delete" {
+		return genCBMove(t, sc)
+	}
 	if profile == "visit-vs-multidelete" {
 		// 3-10 leaves spread over several branches (two or three levels deep)
 		pool, extra = nil, [][]string{{"a", "v"}, {"b", "w", "r"}, {"d", "x"}, {"a"}, {"c", "w"}, {"b", "x", "k"}, {"d"}}
@@ -1010,5 +1066,79 @@ func genCB(t *rapid.T) *CBScenario {
 		}
 		return GStep{Kind: k, T: rapid.IntRange(0, nOthers).Draw(t, "t")}
 	}), 3, 18).Draw(t, "steps")...)
+	return sc
+}
+
+// genCBMove: profile move-vs-conditional-delete (see the file comment).
+func genCBMove(t *rapid.T, sc *CBScenario) *CBScenario {
+	sc.Profile = "move-vs-conditional-delete"
+	names := []string{"x", "y", "z", "v", "u"}[:rapid.IntRange(3, 5).Draw(t, "leaves")]
+	// which leaves satisfy the condition (even) at the start: one, sometimes two
+	match := map[int]bool{rapid.IntRange(0, len(names)-1).Draw(t, "matching"): true}
+	if rapid.IntRange(0, 3).Draw(t, "second") == 0 {
+		match[rapid.IntRange(0, len(names)-1).Draw(t, "matching2")] = true
+	}
+	for i, n := range names {
+		sc.Init = append(sc.Init, CBInit{Path: []string{"a", n}, Odd: !match[i], Handle: true})
+	}
+	if rapid.IntRange(0, 2).Draw(t, "outside") == 0 {
+		sc.Init = append(sc.Init, CBInit{Path: []string{"b", "x"}, Odd: rapid.Bool().Draw(t, "outsideodd"), Handle: rapid.Bool().Draw(t, "outsidehandle")})
+	}
+	main := CBOp{Kind: rapid.SampledFrom([]string{"delcond", "delcond", "walkdel"}).Draw(t, "main"),
+		Path:   rapid.SampledFrom([][]string{{"a"}, {"a"}, {"a", "*"}, {}, {"*"}, {"*", "*"}}).Draw(t, "pattern"),
+		ParkAt: rapid.SliceOfNDistinct(rapid.IntRange(1, 4), 1, 2, func(i int) int { return i }).Draw(t, "park_at")}
+	sc.Threads = append(sc.Threads, []CBOp{main})
+	write := func(t *rapid.T, sel string, odd bool) CBOp {
+		return CBOp{Kind: rapid.SampledFrom([]string{"hupd", "hupd", "add"}).Draw(t, "via"), Sel: sel, Idx: rapid.IntRange(0, 3).Draw(t, "idx"), Odd: odd, Path: []string{"a", names[0]}}
+	}
+	var mover []CBOp
+	switch rapid.IntRange(0, 5).Draw(t, "shape") {
+	case 0, 1, 2: // make a kept leaf match, then make an uninspected leaf stop matching
+		mover = []CBOp{write(t, "done", false), write(t, "unseen", true)}
+	case 3: // the other order
+		mover = []CBOp{write(t, "unseen", true), write(t, "done", false)}
+	case 4: // the leaf under inspection is part of the move
+		mover = []CBOp{write(t, rapid.SampledFrom([]string{"seen", "done"}).Draw(t, "sel"), false), write(t, "unseen", true), write(t, "unseen", rapid.Bool().Draw(t, "odd"))}
+	default:
+		k := rapid.IntRange(2, 4).Draw(t, "writes")
+		for i := 0; i < k; i++ {
+			mover = append(mover, write(t, rapid.SampledFrom([]string{"seen", "done", "done", "unseen", "unseen", "abs"}).Draw(t, "sel"), rapid.Bool().Draw(t, "odd")))
+		}
+	}
+	sc.Threads = append(sc.Threads, mover)
+	nThreads := 2
+	if rapid.IntRange(0, 2).Draw(t, "third") == 0 {
+		// a reader or a second writer
+		var p []CBOp
+		for i, k := 0, rapid.IntRange(1, 2).Draw(t, "nops"); i < k; i++ {
+			switch rapid.IntRange(0, 3).Draw(t, "thirdop") {
+			case 0:
+				p = append(p, CBOp{Kind: "hval", Sel: rapid.SampledFrom([]string{"done", "unseen"}).Draw(t, "sel"), Idx: rapid.IntRange(0, 3).Draw(t, "idx")})
+			case 1:
+				p = append(p, CBOp{Kind: "glv", Path: []string{"a", rapid.SampledFrom(names).Draw(t, "name")}})
+			case 2:
+				p = append(p, write(t, rapid.SampledFrom([]string{"done", "unseen"}).Draw(t, "sel"), rapid.Bool().Draw(t, "odd")))
+			default:
+				p = append(p, CBOp{Kind: "query", Path: []string{"a"}})
+			}
+		}
+		sc.Threads = append(sc.Threads, p)
+		nThreads = 3
+	}
+	// the delete starts (and parks); the mover's writes; then releases and whatever else, in a generated order
+	sc.Steps = []GStep{{Kind: "run", T: 0}}
+	for range mover {
+		sc.Steps = append(sc.Steps, GStep{Kind: "run", T: 1})
+		if nThreads == 3 && rapid.IntRange(0, 3).Draw(t, "interleave") == 0 {
+			sc.Steps = append(sc.Steps, GStep{Kind: "run", T: 2})
+		}
+	}
+	sc.Steps = append(sc.Steps, rapid.SliceOfN(rapid.Custom(func(t *rapid.T) GStep {
+		k := "run"
+		if rapid.IntRange(0, 1).Draw(t, "release") == 0 {
+			k = "rel"
+		}
+		return GStep{Kind: k, T: rapid.IntRange(0, nThreads-1).Draw(t, "t")}
+	}), 1, 8).Draw(t, "steps")...)
 	return sc
 }
